@@ -157,7 +157,7 @@ fn worker(prop: &dyn Property, seed: u64, tier: Tier, from: u64, to: u64, stride
         println!("UNIT {unit}");
         UNIT_STARTED.store(now_ms(), std::sync::atomic::Ordering::SeqCst);
         let mut unit_log = Digest::new();
-        prop.run_unit(seed, unit, tier, &mut |r: RunReport| {
+        let mut sink = |r: RunReport| {
             if let Some(reason) = r.discarded {
                 m.discarded += 1;
                 *m.discard_reasons.entry(reason).or_default() += 1;
@@ -185,7 +185,21 @@ fn worker(prop: &dyn Property, seed: u64, tier: Tier, from: u64, to: u64, stride
                     m.samples.push(s);
                 }
             }
-        });
+        };
+        let r = std::panic::catch_unwind(std::panic::AssertUnwindSafe(|| {
+            prop.run_unit(seed, unit, tier, &mut sink)
+        }));
+        if r.is_err() {
+            // a panic that escaped the per-run handling: report it against this unit
+            m.violations.push((
+                unit,
+                Violation {
+                    class: "panic".into(),
+                    detail: format!("uncaught panic while running unit {unit}: {}", crate::exec::take_last_panic()),
+                },
+                json!({"rerun_unit": unit, "verif_seed": seed, "tier": tier.name()}),
+            ));
+        }
         m.log_digest.push((unit, unit_log.u64()));
         unit += stride;
     }
@@ -431,13 +445,13 @@ pub fn run_batch(prop: &dyn Property, tier: Tier) -> i32 {
         if !seen_sig.insert(sig.clone()) || seen_sig.len() > 3 {
             continue;
         }
-        let (min_case, steps) = if unit == u64::MAX || v.class == "process_crash" {
+        let (min_case, steps) = if unit == u64::MAX || case.get("rerun_unit").is_some() {
             (case.clone(), 0)
         } else {
             prop.minimise(&case, &v.class)
         };
         // re-derive the detail from the minimised case
-        let detail = if v.class == "process_crash" {
+        let detail = if case.get("rerun_unit").is_some() {
             v.detail.clone()
         } else {
             match prop.replay(&min_case) {
@@ -572,7 +586,12 @@ fn rerun_unit(prop_id: &str, case: &J, unit: u64) -> Result<Option<Violation>, S
         .output()
         .map_err(|e| e.to_string())?;
     if out.status.success() {
-        Ok(None)
+        let text = String::from_utf8_lossy(&out.stdout);
+        let j: J = serde_json::from_str(text.lines().last().unwrap_or("")).map_err(|e| e.to_string())?;
+        Ok(j["violations"].as_array().and_then(|a| a.first()).map(|v| Violation {
+            class: v["class"].as_str().unwrap_or("").to_string(),
+            detail: v["detail"].as_str().unwrap_or("").to_string(),
+        }))
     } else {
         Ok(Some(Violation {
             class: "process_crash".into(),
